@@ -12,7 +12,7 @@ for f in glob.glob("/tmp/confirm_batch*.log"):
         if m:
             confirm[m.group(1)] = dict(suite_passed=int(m.group(2)), suite_failed=int(m.group(3)), demo_unchanged_rc=int(m.group(4)), demo_changed_rc=int(m.group(5)))
 checks = {}
-for l in open("/tmp/seedrun.log"):
+for l in [x for f in sorted(glob.glob("/tmp/seedrun*.log")) for x in open(f)]:
     m = re.match(r"SEEDCHECK (\S+) property=(\S+) rc=(\d+) violations=(\d+) ?(.*)", l)
     if m:
         checks.setdefault(m.group(1), []).append(dict(property=m.group(2), exit_code=int(m.group(3)), violations=int(m.group(4)), failed_obligations=[x for x in m.group(5).replace("no-failing-input-found", "").split() if x]))
